@@ -262,9 +262,30 @@ def trace_cases(ctx):
     r = ctx.rng("trace")
     C = []
 
-    def add(tag, pname, threads):
-        C.append({"tag": tag, "pname": pname, "threads": threads,
-                  "balanced": all(well_nested(o) for _, o in threads)})
+    def add(tag, pname, threads, phases=None, main=()):
+        c = {"tag": tag, "pname": pname, "threads": threads, "phases": phases or [0] * len(threads), "main": set(main)}
+        c["balanced"] = all(well_nested(o) for _, o in threads)
+        C.append(c)
+
+    def worker(i):
+        return ["B:evt_%d:demo" % i, "M:mrk_%d:demo" % i, "C:cnt_%d:%d" % (i, 1000 + i), "E"]
+    # recording threads whose lifetimes do NOT overlap: started and joined one after the other (the system is free to give
+    # a later thread the std::thread::id of a finished one; the recorder keeps one list per id), then the main thread
+    add("sequential-8-then-main", "demo6", [("w%d" % i, worker(i)) for i in range(8)] + [("main", ["B:main_evt:demo", "E"])],
+        phases=list(range(8)) + [8], main=[8])
+    add("concurrent-8-sequential-8-main", "demo6",
+        [("c%d" % i, worker(i)) for i in range(8)] + [("s%d" % i, worker(8 + i)) for i in range(8)] + [("-", ["B:main_evt:demo", "E"])],
+        phases=[0] * 8 + list(range(1, 9)) + [9], main=[16])
+    add("sequential-unnamed-after-named", "-", [("first", worker(0)), ("-", worker(1)), ("third", ["M:only:-"])], phases=[0, 1, 2])
+    add("sequential-open-begin-closed-by-next", "-", [("a", ["B:left-open:x", "M:m:-"]), ("b", ["M:n:-", "S", "E", "C:v:3"])], phases=[0, 1])
+    add("sequential-across-chunk", "-", [("t0", gen_ops(r, 8190)), ("t1", worker(1)), ("t2", worker(2))], phases=[0, 1, 2])
+    for rep in range(ctx.pick(4, 16)):
+        nt = r.randint(2, 6)
+        ph, cur = [], 0
+        for k in range(nt):
+            cur += r.choice([0, 1, 1])
+            ph.append(cur)
+        add("random-phases", r.choice(["-", "proc"]), [("p%d" % k, gen_ops(r, r.choice([1, 2, 3, 5, 8, 13]), maxdepth=3)) for k in range(nt)], phases=ph)
     add("empty-log", "-", [])
     add("empty-log+process", "proc", [])
     add("thread-without-events", "-", [("t0", [])])
@@ -308,18 +329,60 @@ def trace_cases(ctx):
     return C
 
 
+def separators(c):
+    """' | ' for a thread of the current phase, ' || ' for the first thread of a later phase, ' |@ ' for the main thread"""
+    n = len(c["threads"])
+    ph = c.get("phases") or [0] * n
+    mains = c.get("main") or set()
+    out, cur = [], 0
+    for i in range(n):
+        if i in mains:
+            out.append("|@")
+            cur = None
+        elif cur is None or ph[i] != cur:
+            out.append("||" if i > 0 else "|")
+            cur = ph[i]
+        else:
+            out.append("|")
+        if i == 0 and i not in mains:
+            cur = ph[0]
+    return out
+
+
 def case_line(c):
     s = "T %s" % c["pname"]
-    for tn, ops in c["threads"]:
-        s += " | %s %s" % (tn, " ".join(ops))
-    return s
+    for sep, (tn, ops) in zip(separators(c), c["threads"]):
+        s += " %s %s %s" % (sep, tn, " ".join(ops))
+    return s.replace("  ", " ").rstrip()
+
+
+def thread_groups(c):
+    """The lists the recorder keeps: one per thread id.  Threads that record or name themselves, in starting order
+    (phase, then position); threads that were given the same std::thread::id (c['ids'], observed in the run: the
+    system hands the id of a finished thread to a later one) continue one list.  Without ids every thread is alone."""
+    n = len(c["threads"])
+    ph = c.get("phases") or [0] * n
+    ids = c.get("ids")
+    reg = [i for i, (tn, ops) in enumerate(c["threads"]) if tn != "-" or any(o != "S" for o in ops)]
+    groups, byid = [], {}
+    for i in sorted(reg, key=lambda i: (ph[i], i)):
+        key = ids[i] if ids and i < len(ids) and ids[i] is not None else 10 ** 30 + i
+        if key not in byid:
+            byid[key] = {"members": [], "id": key}
+            groups.append(byid[key])
+        byid[key]["members"].append(i)
+    for g in groups:
+        names = [c["threads"][i][0] for i in g["members"] if c["threads"][i][0] != "-"]
+        g["name"] = names[-1] if names else "-"        # the last setThreadName wins
+        g["ops"] = [o for i in g["members"] for o in c["threads"][i][1]]
+    return groups
 
 
 def compact_case(c):
     """run-length form of a case for reading: 'T <pname> | <tname> 8192 x M:m:- E ...'"""
     s = "T %s" % c["pname"]
-    for tn, ops in c["threads"]:
-        s += " | %s" % tn
+    for sep, (tn, ops) in zip(separators(c), c["threads"]):
+        s += " %s %s" % (sep, tn)
         i = 0
         while i < len(ops):
             j = i
@@ -332,16 +395,25 @@ def compact_case(c):
 
 def parse_case_line(l):
     t = l.split()
-    c = {"tag": "corpus", "pname": t[1], "threads": []}
+    c = {"tag": "corpus", "pname": t[1], "threads": [], "phases": [], "main": set()}
+    ph = 0
     for x in t[2:]:
-        if x == "|":
+        if x in ("|", "||", "|@"):
+            if x == "||":
+                ph += 1
+            if x == "|@":
+                ph += 1
+                c["main"].add(len(c["threads"]))
             c["threads"].append([None, []])
+            c["phases"].append(ph)
+            if x == "|@":
+                ph += 1
         elif c["threads"][-1][0] is None:
             c["threads"][-1][0] = x
         else:
             c["threads"][-1][1].append(x)
     c["threads"] = [(a, b) for a, b in c["threads"]]
-    c["balanced"] = all(well_nested(o) for _, o in c["threads"])
+    c["balanced"] = all(well_nested(g["ops"]) for g in thread_groups(c))
     return c
 
 
@@ -383,9 +455,10 @@ def trace_oracle(text, c):
         if not (o.get("ph") == "M" and o.get("name") == "process_name" and o.get("args", {}).get("name") == c["pname"]):
             pb.append("process_name metadata missing/wrong: %r" % (o,))
         k = 1
-    registered = [i for i, (tn, ops) in enumerate(c["threads"]) if tn != "-" or any(o != "S" for o in ops)]
-    unnamed = [i for i in registered if c["threads"][i][0] == "-"]
-    byname = {c["threads"][i][0]: i for i in registered if c["threads"][i][0] != "-"}
+    groups = thread_groups(c)
+    registered = list(range(len(groups)))
+    unnamed = [i for i in registered if groups[i]["name"] == "-"]
+    byname = {groups[i]["name"]: i for i in registered if groups[i]["name"] != "-"}
     order, per, cur = [], {}, None
     pids = set()
     for o in objs[k:]:
@@ -411,11 +484,11 @@ def trace_oracle(text, c):
     if len(pids) > 1:
         pb.append("several pids %r" % (pids,))
     if sorted(x for x in order if x is not None) != sorted(registered):
-        pb.append("threads in the file %r, threads that recorded %r" % (order, registered))
-    if not c["balanced"]:
+        pb.append("thread lists in the file %r, thread lists that recorded %r (members %r)" % (order, registered, [g["members"] for g in groups]))
+    if not all(well_nested(g["ops"]) for g in groups):
         return pb, order           # completeness is only required of properly nested histories
     for i in registered:
-        exp = expected_events(c["threads"][i][1])
+        exp = expected_events(groups[i]["ops"])
         got, stack, j = per.get(i, []), [], 0
         evs = []
         n = 0
@@ -449,8 +522,11 @@ def trace_oracle(text, c):
             n += 1
         if evs != exp:
             d = next((x for x in range(min(len(evs), len(exp))) if evs[x] != exp[x]), min(len(evs), len(exp)))
+            who = "%s" % groups[i]["name"] if len(groups[i]["members"]) == 1 else \
+                "%s: threads %s ran one after the other with the same std::thread::id and share one list" % (
+                    groups[i]["name"], [c["threads"][m][0] for m in groups[i]["members"]])
             pb.append("thread %d (%s): %d events in the file, %d recorded; first difference at #%d: file %r, recorded %r"
-                      % (i, c["threads"][i][0], len(evs), len(exp), d, evs[d] if d < len(evs) else None, exp[d] if d < len(exp) else None))
+                      % (i, who, len(evs), len(exp), d, evs[d] if d < len(evs) else None, exp[d] if d < len(exp) else None))
     return pb, order
 
 
@@ -464,26 +540,47 @@ def normalise(text):
 
 
 def model_line(c, order, pid, infos):
-    """case + recorded clock values -> input line of the model driver (threads in file order)."""
-    s = "T %s %d" % (c["pname"], pid)
-    for i in order:
+    """case + recorded clock values -> input line of the model driver: the threads in starting order with their ids; the
+    extracted reg_run builds the recorder's map; `order` = the map entries in file order.  None when the clock values do
+    not cover the recorded events."""
+    groups = thread_groups(c)
+    gid = {}
+    for k, g in enumerate(groups):
+        gid[k] = g["id"] if g["id"] < 10 ** 30 else 10 ** 6 + k
+    s = "T %s %d %s" % (c["pname"], pid, ",".join(str(gid[k]) for k in order) if order else "-")
+    ph = c.get("phases") or [0] * len(c["threads"])
+    member = {m: k for k, g in enumerate(groups) for m in g["members"]}
+    offs = {k: 0 for k in gid}
+    for i in sorted(member, key=lambda i: (ph[i], i)):
+        k = member[i]
         tn, ops = c["threads"][i]
-        times = infos[i][2]
-        s += " | %s" % ("TID" if tn == "-" else tn)
-        k = 0
+        times = infos[groups[k]["members"][-1]][2]      # the list is shared: the last thread that used it reports it all
+        s += " | %s#%d" % ("TID" if tn == "-" else tn, gid[k])
         for o in ops:
             if o == "S":
                 continue
-            s += " %s:%d" % (o, times[k]) if o != "E" else " E:%d" % times[k]
-            k += 1
+            if offs[k] >= len(times):
+                return None
+            s += " %s:%d" % (o, times[offs[k]]) if o != "E" else " E:%d" % times[offs[k]]
+            offs[k] += 1
+    if any(offs[k] != len(infos[groups[k]["members"][-1]][2]) for k in gid):
+        return None
     return s
 
 
 def parse_info(s):
+    tid = None
+    if "#" in s:
+        s, t = s.rsplit("#", 1)
+        tid = int(t) if t.isdigit() else None
     if s == "-" or s == "":
-        return ([], None, [])
+        return ([], None, [], tid)
     a, b, c = s.split("/")
-    return ([int(x) for x in a.split(",")], int(b), [int(x) for x in c.split(",")] if c else [])
+    return ([int(x) for x in a.split(",")], int(b), [int(x) for x in c.split(",")] if c else [], tid)
+
+
+def with_ids(c, infos):
+    return dict(c, ids=[inf[3] for inf in infos])
 
 
 def run_harness_trace(ctx, exe, cases, od):
@@ -508,15 +605,24 @@ def shrink_trace(ctx, exe, c, od):
     def fails(cc):
         if not all(well_nested(o) for _, o in cc["threads"]):
             return False
-        cc = dict(cc, balanced=True)
+        cc = dict(cc, balanced=True, ids=None)
         rc, res, err = run_harness_trace(ctx, exe, [cc], od)
         if rc != 0 or not res:
             return True
+        cc = with_ids(cc, res[0][1])
         pb, _ = trace_oracle(open(res[0][0], errors="replace").read(), cc)
         return bool(pb)
-    cur = dict(c)
-    ths = vlib.shrink_list(list(cur["threads"]), lambda t: fails(dict(cur, threads=t)), max_rounds=40)
-    cur["threads"] = ths
+
+    def rebuild(base, items):
+        return dict(base, threads=[(a, b) for (a, b, _, _) in items], phases=[p for (_, _, p, _) in items],
+                    main=set(i for i, it in enumerate(items) if it[3]))
+    cur = dict(c, ids=None)
+    n0 = len(cur["threads"])
+    ph0 = cur.get("phases") or [0] * n0
+    items = [(cur["threads"][i][0], cur["threads"][i][1], ph0[i], i in (cur.get("main") or set())) for i in range(n0)]
+    items = vlib.shrink_list(items, lambda t: fails(rebuild(cur, t)), max_rounds=40)
+    cur = rebuild(cur, items)
+    ths = cur["threads"]
     for k in range(len(ths)):
         tn, ops = cur["threads"][k]
         if len(ops) > 4000:
@@ -556,7 +662,7 @@ def shrink_chunk_overflow(ctx, exe, c, k, od, orig_info):
         rc, res, err = run_harness_trace(ctx, exe, [cc], od)
         if rc != 0 or not res or not res[0][1]:
             return None, cc
-        sizes, cap, _ = res[0][1][0]
+        sizes, cap = res[0][1][0][0], res[0][1][0][1]
         return ((max(sizes), sizes, cap) if sizes and max(sizes) > CHUNK else None), cc
     nev = sum(1 for o in c["threads"][k][1] if o != "S")
     info, cc = probe(nev)
@@ -588,6 +694,7 @@ def run_trace(ctx, model, exe):
     reported = set()
     overcases = set()
     hist = {}
+    nreuse = 0
     for i, (path, infos) in enumerate(res):
         c = cases[i]
         hist[c["tag"].split("-")[0]] = hist.get(c["tag"].split("-")[0], 0) + 1
@@ -601,13 +708,16 @@ def run_trace(ctx, model, exe):
         if text is None:
             ctx.violation("saveLog wrote no file", {"case": case_line(c)[:3000]})
             continue
+        c = cases[i] = with_ids(c, infos)
+        groups = thread_groups(c)
+        nreuse += sum(1 for g in groups if len(g["members"]) > 1)
         pb, order = trace_oracle(text, c)
         if pb and c["tag"] not in reported and len(reported) < 3:
             reported.add(c["tag"])
             small = shrink_trace(ctx, exe, c, os.path.join(ctx.build, "trace_shrink")) if c["balanced"] else c
             rc2, res2, _ = run_harness_trace(ctx, exe, [small], os.path.join(ctx.build, "trace_shrink"))
             t2 = open(res2[0][0], errors="replace").read() if res2 else text
-            pb2, _ = trace_oracle(t2, small)
+            pb2, _ = trace_oracle(t2, with_ids(small, res2[0][1])) if res2 else (None, None)
             ctx.violation("saveLog: %s" % (pb2 or pb)[0],
                           {"case": case_line(small), "case_compact": compact_case(small), "file": t2[:3000], "file_tail": t2[-600:],
                            "problems": (pb2 or pb)[:5],
@@ -630,18 +740,20 @@ def run_trace(ctx, model, exe):
         if len(ctx.samples) < 5 and c["tag"] in ("pair-long", "nested-2"):
             ctx.sample({"case": case_line(c), "file": text[:400]})
         if order is None:
-            order = [k for k, (tn, ops) in enumerate(c["threads"]) if tn != "-" or any(o != "S" for o in ops)]
+            order = list(range(len(groups)))
             pid = 0
         else:
             m = re.search(r'"pid":([0-9]+)', text)
             pid = int(m.group(1)) if m else 0
         if any(x is None for x in order):
             continue
-        # the times recorded must be as many as the events
-        if any(len(infos[k][2]) != len(expected_events(c["threads"][k][1])) for k in order if k < len(infos)):
-            ctx.broken.append("harness: recorded event count differs from the script in case %s" % c["tag"])
+        ml = model_line(c, order, pid, infos)
+        if ml is None:
+            # the clock values reported for a list must be as many as the events its threads recorded
+            if not pb:
+                ctx.broken.append("harness: recorded event count differs from the script in case %s" % c["tag"])
             continue
-        mlines.append(model_line(c, order, pid, infos))
+        mlines.append(ml)
         midx.append(i)
         texts[i] = (text, pb)
         orders[i] = order
@@ -652,13 +764,15 @@ def run_trace(ctx, model, exe):
     ncorr, nlong, chunks = 0, 0, {}
     for i, ml in zip(midx, mout):
         c = cases[i]
-        mtext, msizes, mjson = ml.split("\t")
+        mtext, msizes, mjson = ml.split("\t")[:3]
+        groups = thread_groups(c)
+        last = lambda k: res[i][1][groups[k]["members"][-1]]     # noqa: E731  (info of the last thread of list k)
         text, pb = texts[i]
         ntext, bad = normalise(text)
         nlong += ntext.count('"cat":"builtin"')
-        hs = ";".join(",".join(map(str, res[i][1][k][0])) if res[i][1][k][0] else "-" for k in orders[i])
+        hs = ";".join(",".join(map(str, last(k)[0])) if last(k)[0] else "-" for k in orders[i])
         for k in orders[i]:
-            for s in res[i][1][k][0]:
+            for s in last(k)[0]:
                 key = "full" if s == 8192 else ("1" if s == 1 else "partial")
                 chunks[key] = chunks.get(key, 0) + 1
         if mjson != "1" and not pb:
@@ -676,6 +790,7 @@ def run_trace(ctx, model, exe):
     ctx.cov["trace_long_intervals_seen"] = nlong
     ctx.cov["chunk_kinds_seen"] = chunks
     ctx.cov["chunks_over_capacity"] = len(overcases)
+    ctx.cov["thread_id_reused_lists_seen"] = nreuse
     ctx.cov["trace_threads_histogram"] = {str(n): sum(1 for c in cases if len(c["threads"]) == n) for n in range(0, 9)}
 
 
@@ -715,7 +830,8 @@ def run(ctx):
     ctx.rule = ("images: every (w,h) in 1..6 x 1..6 plus (1,257),(257,1) (thorough: more) x six writers (writePPM, writePGM, writePFM<float|vec3f|vec3fa|vec4f>), "
                 "distinct component values, exact-size heap buffer under ASan, file decoded by an independent python reader and compared with the input and "
                 "byte-for-byte with the model; non-trivial = more than one pixel.  traces: empty log, threads without events, one event, nesting depth 0..5, "
-                "8191/8192/8193 events, an interval crossing the chunk boundary, random well-nested scripts on 1..8 concurrently recording threads through "
+                "8191/8192/8193 events, an interval crossing the chunk boundary, random well-nested scripts on 1..8 concurrently recording threads, recording threads with "
+                "NON-overlapping lifetimes (8 spawned and joined one after the other, 8 concurrent then 8 sequential, then the main thread; random phase layouts) through "
                 "rkcommon::tracing::{beginEvent,endEvent,setMarker,setCounter,setThreadName,saveLog}; file parsed with python json and compared per thread in order, "
                 "and byte-for-byte (cpuUtilization values and printed thread ids normalised) with the model run on the recorded clock values; non-trivial = at least one event recorded")
     ctx.trusted += ["fact extractor props/C20/factgen.py + tools/sxast/sxast.py over `clang++ -std=c++11 -fsyntax-only -Xclang -ast-dump=json` of the working tree's "
@@ -725,7 +841,10 @@ def run(ctx):
                     "between cases and to read chunk sizes/clock values) + generators/readers in props/C20/check.py (g++ -O1, ASan+UBSan)",
                     "modelled, not verified: fopen/fprintf/fwrite/ofstream/seekp, alloca row buffer, std::list/std::vector/unordered_map, the pointer-keyed string cache, "
                     "steady_clock and getrusage (clock values are inputs of the model; cpuUtilization text is an opaque token assumed to be a JSON number)"]
-    ctx.assumptions += ["image theorems: every input component fits sizeof(COMP_T) bytes (Spec.comps_fit); the file reader of Spec.v is the reference decoder",
+    ctx.assumptions += ["std::thread::id values are inputs observed in the run (the system may give a later thread the id of a finished one); the recorder keeps "
+                        "one list per id, so such threads share one list in recording order and the last setThreadName wins (modelled: Model.reg_run; "
+                        "theorems registry_keeps_every_event / savelog_complete_registry); the iteration order of the unordered_map is taken from the file",
+                        "image theorems: every input component fits sizeof(COMP_T) bytes (Spec.comps_fit); the file reader of Spec.v is the reference decoder",
                         "pixel buffers hold w*h pixels of PIXEL_COMP components; sizeof(PIXEL_T) = PIXEL_COMP*sizeof(COMP_T) (static_assert in the harness); 0 < w,h and w*h*4 fits int",
                         "names, categories, thread and process names contain no '\"', '\\\\' or control characters (saveLog does no escaping)",
                         "steady_clock is monotone (an end is not earlier than its begin); the printed cpuUtilization is a finite number",
